@@ -6,7 +6,7 @@
    GetAllArrayType/GetAllTableType/GetAllTableKeyType without visited set).  Spec: Spec/ClassClosure.v. *)
 From Coq Require Import List NArith Bool.
 From LH Require Import Base.Res Model.Classes Spec.ClassClosure
-     Proofs.ClassesTotal Proofs.ClassesClosure Proofs.ClassesElem Proofs.ClassesSpecExec.
+     Proofs.ClassesTotal Proofs.ClassesClosure Proofs.ClassesElem Proofs.ClassesSpecExec Proofs.ClassesPaths.
 Import ListNotations.
 Local Open Scope N_scope.
 
@@ -153,6 +153,28 @@ Theorem C15_model_decides_unfixed :
 Proof. exact resolve_model_unfixed. Qed.
 Print Assumptions C15_model_decides_unfixed.
 
+(* ------------------------------------------------------------------ one indexing step: `v[1].` / `v.k.` (k no member) *)
+(* the function the driver runs (complete_at) offers, after an index, the members of the element type the
+   specification derives (array element first, else table value), and nothing when there is none *)
+Theorem C15_index_step_members :
+  forall tm t f l, c15_fixed_variant = false ->
+    cyclic_alias leaf_arr tm t f = false -> cyclic_alias leaf_val tm t f = false ->
+    exists r, index_rel tm t f r /\
+      complete_at tm (t, f, l) [None] = Ok (match r with Some e => model_members tm e f l | None => [] end).
+Proof. exact index_step_members. Qed.
+Print Assumptions C15_index_step_members.
+
+Theorem C15_index_step_closure :
+  forall tm t f l, wf_tm tm -> c15_fixed_variant = false ->
+    cyclic_alias leaf_arr tm t f = false -> cyclic_alias leaf_val tm t f = false ->
+    exists r o, index_rel tm t f r /\ complete_at tm (t, f, l) [None] = Ok o /\
+      match r with
+      | Some e => shadow_free tm e f = true -> forall x, In x o <-> members_spec tm e x
+      | None => o = []
+      end.
+Proof. exact index_step_closure. Qed.
+Print Assumptions C15_index_step_closure.
+
 (* ------------------------------------------------------------------ the prepared fix (visited-set variant) *)
 (* unguarded termination: cyclic aliases included *)
 Theorem C15_fixed_terminates :
@@ -180,7 +202,19 @@ Theorem C15_model_decides_fixed :
 Proof. exact resolve_model_fixed. Qed.
 Print Assumptions C15_model_decides_fixed.
 
+Theorem C15_index_step_members_fixed :
+  forall tm t f l, c15_fixed_variant = true ->
+    complete_at tm (t, f, l) [None] =
+      Ok (match index_exec tm t f with Some e => model_members tm e f l | None => [] end).
+Proof. exact index_step_members_fixed. Qed.
+Print Assumptions C15_index_step_members_fixed.
+
 (* ------------------------------------------------------------------ the executable specification is the specification *)
+Theorem C15_spec_exec_index :
+  forall tm t f r, wf_tm tm -> index_rel tm t f r -> index_exec tm t f = r.
+Proof. exact index_exec_correct. Qed.
+Print Assumptions C15_spec_exec_index.
+
 Theorem C15_spec_exec_members :
   forall tm t L, members_exec tm t = Some L -> forall x, In x L <-> members_spec tm t x.
 Proof. exact members_exec_correct. Qed.
